@@ -88,7 +88,10 @@ func (s *gsSuite) read() gsState {
 		for _, id := range s.ids {
 			p, err := gsQueryProp(w, w.Ctx, govshuttletypes.ModuleAddress, port, new(big.Int).SetUint64(id))
 			if err != nil {
-				panic(fmt.Sprintf("QueryProp(%d): %v", id, err))
+				// the store does not answer (no contract at the recorded address): an observation, not a harness error
+				st.ans[id] = "qerr"
+				s.stat["query-error"]++
+				continue
 			}
 			st.ans[id] = gsRecord(p)
 		}
@@ -401,6 +404,15 @@ func (s *gsSuite) emit(kind, args string, pre gsState, snapPre Snap, out Outcome
 	}
 }
 
+// one proposal in seven carries a later message that fails: the gov module discards everything the proposal's messages
+// did (a proposal bundling a valid govshuttle message with an invalid one); more often while no store is deployed yet
+func (s *gsSuite) later() bool {
+	if _, ok := s.w.App.GovshuttleKeeper.GetPort(s.w.Ctx); !ok {
+		return s.r.Intn(3) == 0
+	}
+	return s.r.Intn(9) == 0
+}
+
 func (s *gsSuite) opLM() {
 	r := s.r
 	st0 := s.read()
@@ -462,10 +474,21 @@ func (s *gsSuite) opLM() {
 	snap := s.w.Snapshot()
 	args := fmt.Sprintf("auth=%s title=%s desc=%s meta=%d id=%d acct=%s vals=%s sigs=%s cds=%s", gsStr(msg.Authority), gsStr(msg.Title),
 		gsStr(msg.Description), meta, md.PropId, gsStrList(md.Account), gsU64List(md.Values), gsStrList(md.Signatures), gsStrList(md.Calldatas))
+	later, hok := s.later(), false
+	if later {
+		args += " later=1"
+	}
 	out := s.w.Deliver(func(ctx sdk.Context) error {
 		_, err := s.ms.LendingMarketProposal(ctx, msg)
+		if err == nil && later {
+			hok = true
+			return fmt.Errorf("a later message of the transaction failed")
+		}
 		return err
 	})
+	if hok {
+		out.Class = "later"
+	}
 	s.emit("lm", args, pre, snap, out)
 }
 
@@ -490,10 +513,21 @@ func (s *gsSuite) opTreasury() {
 	snap := s.w.Snapshot()
 	args := fmt.Sprintf("auth=%s title=%s desc=%s meta=%d id=%d rcpt=%s amt=%d denom=%s", gsStr(msg.Authority), gsStr(msg.Title),
 		gsStr(msg.Description), meta, md.PropID, gsStr(md.Recipient), md.Amount, gsStr(md.Denom))
+	later, hok := s.later(), false
+	if later {
+		args += " later=1"
+	}
 	out := s.w.Deliver(func(ctx sdk.Context) error {
 		_, err := s.ms.TreasuryProposal(ctx, msg)
+		if err == nil && later {
+			hok = true
+			return fmt.Errorf("a later message of the transaction failed")
+		}
 		return err
 	})
+	if hok {
+		out.Class = "later"
+	}
 	s.emit("tr", args, pre, snap, out)
 }
 
